@@ -37,7 +37,7 @@ class Trace:
                     self.inputs.append(dict(eid=eid, src=act[1], val=val_from_json(act[2]),
                                             md=[tuple(m) for m in act[3]], step=step, t=o["now"]))
                     eid += 1
-                elif act[0] == "burst":
+                elif act[0] in ("burst", "seq", "chain"):
                     for vj in act[2]:
                         self.inputs.append(dict(eid=eid, src=act[1], val=val_from_json(vj), md=[], step=step, t=o["now"]))
                         eid += 1
@@ -210,7 +210,17 @@ def check_c03(case, obs):
                     out.append(("C03", sig, "input %d: %d accepted, %d paired, maxsize %d" % (src, acc, paired, m)))
                     break
     # (c) no deadlock: when every consumer has finished, no emit is still pending
-    if T.drained and k not in ("zip",):
+    if T.drained and k in ("zip", "zip3"):
+        # an emit may legitimately wait while its input's buffer is over the bound; once the buffer is back
+        # within the bound (tuples left) every waiting producer must have been released
+        for src in range(3 if k == "zip3" else 2):
+            mine = [i for i in T.inputs if i["src"] == src]
+            buffered = len(mine) - len(T.deliv)
+            pend = [i["eid"] for i in mine if i["eid"] not in T.done_step and i["eid"] not in T.failed_step]
+            if pend and buffered <= T.sp["maxsize"]:
+                out.append(("C03", "C03/lost-wakeup/zip", "input %d holds %d elements (maxsize %d), all consumers finished, but emits %r never completed"
+                            % (src, buffered, T.sp["maxsize"], pend[:5])))
+    if T.drained and k not in ("zip", "zip3"):
         pend = [i["eid"] for i in T.inputs if i["eid"] not in T.done_step and i["eid"] not in T.failed_step]
         if pend:
             out.append(("C03", "C03/lost-wakeup/%s" % k, "all consumers finished but emits %r never completed" % pend[:5]))
@@ -418,4 +428,32 @@ def check_c14(case, obs):
         pos = nxt
     if T.drained and exp and (not got or got[-1] != exp[-1]):
         out.append(("C14", "C14/newest-not-delivered", "consumer is free, newest arrival %r, delivered %r" % (exp[-1], got)))
+    return out
+
+
+def check_c10(case, obs):
+    """metadata delivered with each element / batch / tuple = the metadata of exactly its members, in member order"""
+    T = Trace(case, obs)
+    k = T.kind
+    out = []
+    by_val = {}
+    for i in T.inputs:
+        by_val[expected_item(k, i) if k == "map_async" else i["val"]] = [tuple(m) for m in i["md"]]
+    for d in T.deliv:
+        members = flat_items(k, d) if k not in ("zip", "zip3") else list(d["val"])
+        exp = []
+        ok = True
+        for x in members:
+            if x not in by_val:
+                ok = False
+                break
+            exp.extend(by_val[x])
+        if not ok:
+            continue
+        got = [tuple(m) for m in d["md"]]
+        if got != exp:
+            out.append(("C10", "C10/md-exact/async/%s" % k,
+                        "delivery %r in step %d carries metadata ids %r, its members carry %r"
+                        % (d["val"], d["step"], [i for i, _ in got], [i for i, _ in exp])))
+            break
     return out
